@@ -84,6 +84,9 @@ pub struct TaskMon {
     pub running_on: Vec<u32>,
     pub crash_ref: u32,
     pub timed_out: bool,
+    /// worker slot on which the timed-out execution ran (the obligation ends if that worker is lost
+    /// before it reported the failure: the task is then restarted like any other running task)
+    pub timed_out_slot: u8,
     pub cancel_requested: bool,
 }
 
@@ -410,8 +413,11 @@ impl Monitor {
                     }
                 }
                 Obs::StopSignal { .. } => {}
-                Obs::TimeLimitFired { task, .. } => {
-                    self.s.tasks.entry(*task).or_default().timed_out = true;
+                Obs::TimeLimitFired { task, exec } => {
+                    let slot = sys.launcher.borrow().execs[*exec as usize].slot;
+                    let tm = self.s.tasks.entry(*task).or_default();
+                    tm.timed_out = true;
+                    tm.timed_out_slot = slot;
                 }
                 Obs::ToWorker { slot, kind, tasks, .. } => match *kind {
                     "compute" => {
@@ -465,6 +471,11 @@ impl Monitor {
                 Obs::ToServer { .. } => {}
                 Obs::Kill { slot, worker, reason } => {
                     kill = Some((*slot, *worker, *reason));
+                    for tm in self.s.tasks.values_mut() {
+                        if tm.timed_out && tm.timed_out_slot == *slot {
+                            tm.timed_out = false;
+                        }
+                    }
                     self.s.given_back.retain(|(s, _)| s != slot);
                     self.s.cancel_told.retain(|(s, _)| s != slot);
                 }
